@@ -151,7 +151,9 @@ def cusip_checksum(base: str) -> str:
     """
 
     def encode(index, char):
-        num = {"*": 36, "@": 37, "#": 38}.get(char, int(char, 36))
+        num = {"*": 36, "@": 37, "#": 38}.get(char)
+        if num is None:
+            num = int(char, 36)
         return str(num * 2) if index % 2 else str(num)
 
     assert len(base) == 8
